@@ -110,6 +110,8 @@ def load_known(pid):
 
 
 def main():
+    import faulthandler
+    faulthandler.register(signal.SIGUSR1, all_threads=True)     # `kill -USR1 <pid>` shows where a run is
     ap = argparse.ArgumentParser()
     ap.add_argument("pid")
     ap.add_argument("--tier", default=os.environ.get("VERIF_TIER", "quick"))
@@ -207,17 +209,22 @@ def main():
             return mod.model_request(line, impl)
         return mod.KIND + " " + line
 
+    def enough_violations():
+        # (cases that exhaust the wall-clock allowance are expensive: two of them are enough)
+        return len(violations) >= 5 or sum(1 for v in violations if v[1] == "wall-timeout") >= 2
+
     recent = []      # the last few case lines run in this process (for failures that need earlier cases)
 
     def run_one(line, origin):
         recent.append(line)
         del recent[:-4]
         impl = None
-        for attempt, wall in enumerate((getattr(mod, "CASE_WALL", 30), 4 * getattr(mod, "CASE_WALL", 30))):
+        for attempt, wall in enumerate((getattr(mod, "CASE_WALL", 30), 3 * getattr(mod, "CASE_WALL", 30))):
             # the wall-clock guard is a safety net of the harness (real shells, subprocesses); a case that trips it
-            # is run once more with four times the allowance before it counts — a loaded machine is not a finding
+            # is run once more with three times the allowance before it counts — a loaded machine is not a finding
             try:
-                signal.setitimer(signal.ITIMER_REAL, wall)
+                # (repeating: clean-up code that runs while the exception unwinds may block again)
+                signal.setitimer(signal.ITIMER_REAL, wall, 3.0)
                 try:
                     impl = mod.run_impl(line)
                 finally:
@@ -268,7 +275,7 @@ def main():
 
     def guarded_impl(line):
         try:
-            signal.setitimer(signal.ITIMER_REAL, getattr(mod, "CASE_WALL", 30))
+            signal.setitimer(signal.ITIMER_REAL, getattr(mod, "CASE_WALL", 30), 3.0)
             try:
                 return mod.run_impl(line)
             finally:
@@ -306,7 +313,7 @@ def main():
         if tier == "thorough" and hasattr(mod, "exhaustive"):
             for line in mod.exhaustive(params):
                 run_one(line, "exhaustive")
-                if len(violations) >= 5:
+                if enough_violations():
                     break
             else:
                 exhaustive_done = True
@@ -314,7 +321,7 @@ def main():
         for sd in seeds:
             rng = random.Random(sd)
             for i in range(n // len(seeds)):
-                if real() - t0 > budget or len(violations) >= 5:
+                if real() - t0 > budget or enough_violations():
                     break
                 line = mod.gen_case(rng, params)
                 run_one(line, f"seed={sd} index={i}")
@@ -328,9 +335,13 @@ def main():
     for kid, (kf, line) in known_hits.items():
         out_lines.append(f"KNOWN-FINDING: property={rid} {kf['id']}: {kf['what']}")
 
+    first_obs = {v[0]: v[1] for v in list(violations) + list(disagreements)}
+
     def shrink(line):
         if not hasattr(mod, "shrink_candidates"):
             return line
+        if first_obs.get(line) == "wall-timeout":
+            return line          # every candidate could cost the whole wall-clock allowance again: report it as it is
         kind = still_bad(line)
         if kind is None:
             return line
@@ -363,7 +374,7 @@ def main():
         line, impl, model, origin, hist = violations[0]
         small = shrink(line) if lean is not None else line
         history, note = [], ""
-        if not args.replay and not args.no_fresh_probe and lean is not None:
+        if not args.replay and not args.no_fresh_probe and lean is not None and impl != "wall-timeout":
             # a failure may depend on state the implementation carried over from earlier cases in this process:
             # the replay must fail on its own
             if not fails_in_fresh_process(small):
